@@ -391,6 +391,31 @@ def render_emit(facts):
     return "\n".join(out) + "\n"
 
 
+def scrape_pst():
+    """PstFacts.v: do the positional reads of pst.rs skip COMMENT pairs? (C14, C16)"""
+    facts, problems = {}, []
+    t = read("idlc_ast/src/pst.rs")
+    helper = bool(re.search(r"fn children\(pair: Pair<'_, Rule>\) -> impl Iterator<Item = Pair<'_, Rule>> \{\s*pair\.into_inner\(\)\.filter\(\|p\| p\.as_rule\(\) != Rule::COMMENT\)", t))
+    n = len(re.findall(r"\.into_inner\(\)", t))
+    # sites that must stay raw: the helper itself, attributes of function_keyword, FunctionAttribute,
+    # Documentation, include, the members of an interface, the top-level loop
+    if helper and n == 7:
+        facts["pst_skips_comments"] = True
+    elif not helper and n == 18:
+        facts["pst_skips_comments"] = False
+    else:
+        facts["pst_skips_comments"] = False
+        problems.append("pst.rs: %d uses of into_inner() with%s the children() helper: which positional reads skip comments is not recognised" % (n, "" if helper else "out"))
+    return facts, problems
+
+
+def render_pst(facts):
+    out = ["(* GENERATED by lib/translate.py: whether the positional reads of pst.rs skip COMMENT pairs. *)", "Require Import Base.", ""]
+    for k in sorted(facts):
+        out.append("Definition %s : bool := %s." % (k, "true" if facts[k] else "false"))
+    return "\n".join(out) + "\n"
+
+
 def render_own(facts):
     out = ["(* GENERATED by lib/translate.py: ownership idioms of the object visitors (C, C++, Rust emitters) and of ProxyBase::consume. *)",
            "Require Import Base.", ""]
@@ -459,6 +484,11 @@ def main(outdir, probe=None):
     F.items["emit"] = ef
     if not eproblems:
         write_if_changed(os.path.join(outdir, "EmitFacts.v"), render_emit(ef))
+    pf, pproblems = scrape_pst()
+    F.problems += pproblems
+    F.items["pst"] = pf
+    if not pproblems:
+        write_if_changed(os.path.join(outdir, "PstFacts.v"), render_pst(pf))
     cf, cproblems = scrape_conc()
     F.problems += cproblems
     F.items["conc"] = cf
